@@ -203,6 +203,43 @@ def convenience_classes(chk, rng):
                 chk.violation({"kind": "io_convenience", "cls": "EulerianFieldIO"}, "EulerianFieldIO loaded a file with different spacing without complaint")
             except Exception:
                 pass
+            # a domain whose lower corner differs per axis: the stored origin follows the ARRAY axis order (.., y, x), so that the generic
+            # IO class (origin given in that order) reads the file, and rejects the permuted origin
+            import h5py
+
+            off = np.array([0.5, -2.0, 3.0][:dim], dtype=dtype)                  # per PHYSICAL axis x, y(, z)
+            pf = (sim.position_field + off.reshape((dim,) + (1,) * dim)).astype(dtype)
+            io4 = spu.EulerianFieldIO(position_field=pf, eulerian_fields_dict=fields)
+            io4.save("conv_shift.h5", time=0.75)
+            want_origin = np.array([float(pf[dim - 1 - a].min()) for a in range(dim)])       # (z,) y, x
+            dxs = float(sim.dx)
+            with h5py.File("conv_shift.h5", "r") as f:
+                got_origin = np.array(f["Eulerian"]["Parameters"].attrs["origin"], dtype=float)
+                got_dx = np.array(f["Eulerian"]["Parameters"].attrs["dx"], dtype=float)
+                got_gs = np.array(f["Eulerian"]["Parameters"].attrs["grid_size"])
+            chk.traces += 1
+            chk.count(("EulerianFieldIO-origin", dim, dtype.__name__))
+            tol = 8 * float(np.finfo(dtype).eps) * 4
+            if got_origin.shape != (dim,) or np.abs(got_origin - want_origin).max() > tol or np.abs(got_dx - dxs).max() > tol or tuple(got_gs) != shape:
+                chk.violation({"kind": "io_convenience", "cls": "EulerianFieldIO", "what": "origin"},
+                              f"EulerianFieldIO {dim}-D {dtype.__name__}: stored origin/dx/grid_size = {got_origin.tolist()}/{got_dx.tolist()}/{got_gs.tolist()} for a domain with lower "
+                              f"corner (array axis order) {want_origin.tolist()}, spacing {dxs}, grid {shape}")
+            for label, org, must_load in (("matching", want_origin, True), ("permuted", want_origin[::-1], False)):
+                gio = spu.IO(dim=dim, real_dtype=dtype)
+                gio.define_eulerian_grid(origin=np.array(org, dtype=float), dx=np.full(dim, dxs), grid_size=np.array(shape))
+                tgt = {k: np.zeros_like(v) for k, v in fields.items()}
+                gio.add_as_eulerian_fields_for_io(**tgt)
+                try:
+                    gio.load("conv_shift.h5")
+                    loaded = True
+                except Exception:
+                    loaded = False
+                if loaded != must_load:
+                    chk.violation({"kind": "io_convenience", "cls": "EulerianFieldIO", "what": "origin"},
+                                  f"EulerianFieldIO {dim}-D {dtype.__name__}: a generic IO registry with the {label} origin {list(org)} "
+                                  f"{'loaded' if loaded else 'was refused'} the file written for lower corner {want_origin.tolist()}")
+                elif loaded and any(tgt[k].tobytes() != fields[k].tobytes() for k in fields):
+                    chk.violation({"kind": "io_convenience", "cls": "EulerianFieldIO", "what": "origin"}, "cross-loaded fields are not bit exact")
         for n in (2, 3, 5):
             rod = ea.CosseratRod.straight_rod(n, np.array([0.1, 0.2, 0.3]), np.array([0.0, 0.6, 0.8]), np.array([1.0, 0.0, 0.0]), 1.0, 0.05,
                                               density=1e3, youngs_modulus=1e6, shear_modulus=1e6 / 1.5)
